@@ -71,3 +71,11 @@ Proof.
   intros H1 H2. split; [apply out_ts_is_rtp_ms; lia|].
   rewrite ts_ms_is_rtp_ms by lia. rewrite N2Z.id. reflexivity.
 Qed.
+
+(* several access units in one RTP packet (RFC 3640): lal stamps the i-th one
+   floor(ts0*1000/rate) + floor(i*1024000/rate): at most one millisecond below the floor of the
+   exact value (ts0 + 1024 i) * 1000 / rate, never above it - for every i, no accumulation *)
+Lemma multi_au_stamp rate ts0 i : 0 < rate ->
+  let ms := rtp_ms rate ts0 + i * 1024000 / rate in
+  ms * rate <= (ts0 + 1024 * i) * 1000 /\ (ts0 + 1024 * i) * 1000 < (ms + 2) * rate.
+Proof. intros H ms. subst ms. unfold RtpUnpacker.rtp_ms. nia. Qed.
